@@ -10,4 +10,4 @@ EXPLANATION = "Deductive proof of defaults/applicability (DataFormat.__init__), 
 LEVEL_TEXT = "Proof obligations for defaults, applicability, value sets, stored values, frame and consistency rules; bounded sweep for the spelling of characters (tokenizer, unicode_escape)."
 LEVEL_NOTE = "Trusts the pyvc encoding, z3/cvc5, A-INT/A-STR (int(), str.lower uninterpreted), codecs.lookup (runtime registry)."
 TECHNIQUE = "contract-based deductive verification (VCs from the ast of the real functions, z3/cvc5) + bounded spelling sweep"
-UNITS = [D.unit_dataformat_init(), D.unit_set_property(), D.unit_validate()]
+UNITS = [D.unit_dataformat_init(), D.unit_set_property(), D.unit_validate(), D.unit_validated_character(), D.unit_character_spellings()]
